@@ -20,8 +20,8 @@ PLANS = {
         ["issue.accept", "holder.new", "present.ok", "verify.accept", "verify.view", "verify.claims", "verify.clean",
          "scn.expect.reject", "scn.expect.claims", "scn.model.agrees"],
         [RT],
-        [REPLAY_RT_Q, {"driver": "rich", "args": {"n": 700, "depth": 5, "arbsel": 0}}],
-        [REPLAY_RT_T, {"driver": "rich", "args": {"n": 20000, "depth": 8, "arbsel": 0}}],
+        [REPLAY_RT_Q, {"driver": "rich", "args": {"n": 700, "depth": 5, "arbsel": 0}}, {"driver": "repotests"}],
+        [REPLAY_RT_T, {"driver": "rich", "args": {"n": 20000, "depth": 8, "arbsel": 0}}, {"driver": "repotests"}],
         required={"verify.accept": 300, "verify.view": 300, "scn.expect.claims": 100},
         rule="cases = TLC-generated behaviours of MC_roundtrip replayed over a key/format matrix + seeded random claim trees "
              "(Unicode incl. non-BMP, empty containers, u64/i64/f64, depth <= 8) x strategies x type-consistent selections; "
@@ -32,8 +32,8 @@ PLANS = {
         "model_checking",
         ["issue.exact", "issue.refs", "issue.refuse.path", "issue.shape", "issue.wellformed", "issue.accept"],
         [RT],
-        [REPLAY_RT_Q, {"driver": "rich", "args": {"n": 900, "depth": 5, "arbsel": 0, "only": "issue"}}],
-        [REPLAY_RT_T, {"driver": "rich", "args": {"n": 30000, "depth": 8, "arbsel": 0, "only": "issue"}}],
+        [REPLAY_RT_Q, {"driver": "rich", "args": {"n": 900, "depth": 5, "arbsel": 0, "only": "issue"}}, {"driver": "repotests"}],
+        [REPLAY_RT_T, {"driver": "rich", "args": {"n": 30000, "depth": 8, "arbsel": 0, "only": "issue"}}, {"driver": "repotests"}],
         required={"issue.exact": 500, "issue.refuse.path": 3},
         nontrivial_event="Issue",
         rule="cases = Issue events over TLC-generated (claims, strategy) pairs (every subset of paths as a Custom strategy in the "
@@ -44,8 +44,8 @@ PLANS = {
         "model_checking",
         ["present.ok", "present.exact", "present.weak", "present.jwt", "present.shape", "present.kb.none", "present.kb"],
         [RT],
-        [REPLAY_RT_Q, {"driver": "rich", "args": {"n": 700, "depth": 5, "arbsel": 0.4}}, {"driver": "history", "args": {"random": 120}}],
-        [REPLAY_RT_T, {"driver": "rich", "args": {"n": 20000, "depth": 8, "arbsel": 0.4}}, {"driver": "history", "args": {"random": 3000}}],
+        [REPLAY_RT_Q, {"driver": "rich", "args": {"n": 700, "depth": 5, "arbsel": 0.4}}, {"driver": "history", "args": {"random": 120}}, {"driver": "repotests"}],
+        [REPLAY_RT_T, {"driver": "rich", "args": {"n": 20000, "depth": 8, "arbsel": 0.4}}, {"driver": "history", "args": {"random": 3000}}, {"driver": "repotests"}],
         required={"present.exact": 400, "present.weak": 500, "present.kb": 50},
         nontrivial_event="Present",
         rule="cases = Present events: TLC-generated type-consistent selections (every prefix length, one element too many) and seeded "
